@@ -28,6 +28,7 @@ def machine_factory(H):
 
             @initialize(data=st.data())
             def init(self, data):
+                on_fail(None, None)  # lets the runner end a shrink that has used its time budget
                 step = data.draw(H.init_strategy())
                 self.steps.append(step)
                 ctx.begin(self.steps)
